@@ -281,6 +281,15 @@ def run(ctx, tasks=None):
                     n, sd = line.rsplit(" ", 1)
                     if n in names:
                         tasks.insert(0, (n, int(sd)))
+    # the MP4 load/save/delete model against the real code on generated damaged files (io.BytesIO and real files):
+    # exception class and the bytes left; a non-MutagenError from the real code is a violation here
+    # (runs before _init_worker limits the address space of this process: the Lean driver needs its thread stacks)
+    if tasks is not None and len(tasks) > 1:
+        try:
+            import mp4file_tie
+            mp4file_tie.run(ctx, report=True)
+        except ImportError as e:
+            ctx.notes.append("mp4file_tie unavailable: %s" % e)
     # the corpus of minimised hard inputs runs first (harness/corpus/c04: inputs that once escaped or hung)
     cdir = os.path.join(os.path.dirname(os.path.dirname(os.path.abspath(__file__))), "corpus", "c04")
     if os.path.isdir(cdir) and tasks is not None and len(tasks) > 1:
